@@ -317,6 +317,68 @@ impl World {
         out
     }
 
+    // ---- material for replay attacks (all genuine, all obtainable by an on-path attacker) ----------
+
+    /// parent zone's SOA plus its NSEC / NSEC3 *matching the delegation point* `cut` (NS [DS] bits,
+    /// no SOA bit), with their genuine RRSIGs. With `clear_ds` the DS bit is removed from the bitmap
+    /// (an alteration: the genuine RRSIG no longer fits).
+    pub fn parent_side_denial(&self, parent: usize, cut: &Name, clear_ds: bool) -> Vec<Rec> {
+        let z = &self.truth.zones[parent];
+        let mut out = Vec::new();
+        if !z.spec.signed {
+            return out;
+        }
+        let soa: Vec<Vec<u8>> = z.full.rrset(&z.apex, ty::SOA).cloned().unwrap_or_default();
+        self.push_rrset(&mut out, SEC_NS, parent, &z.apex, ty::SOA, &soa, None, true);
+        if let Some(p) = &z.spec.nsec3 {
+            if let Some(m) = self.nsec3_matching(parent, cut) {
+                let owner = chain::nsec3_owner(m, &z.apex);
+                let genuine = chain::nsec3_rdata(m, p);
+                let sigs = self.sigs_for(parent, &owner, chain::T_NSEC3, &[genuine.clone()], None);
+                let mut m2 = m.clone();
+                if clear_ds {
+                    m2.types.remove(&ty::DS);
+                }
+                out.push(Rec { sec: SEC_NS, owner: owner.clone(), rtype: chain::T_NSEC3, class: 1, ttl: TTL_NEG, rdata: chain::nsec3_rdata(&m2, p) });
+                for s in sigs {
+                    out.push(Rec { sec: SEC_NS, owner: owner.clone(), rtype: ty::RRSIG, class: 1, ttl: TTL_NEG, rdata: s });
+                }
+            }
+        } else if let Some(m) = self.nsec_matching(parent, cut) {
+            let genuine = chain::nsec_rdata(m);
+            let sigs = self.sigs_for(parent, &m.owner, chain::T_NSEC, &[genuine], None);
+            let mut m2 = m.clone();
+            if clear_ds {
+                m2.types.remove(&ty::DS);
+            }
+            out.push(Rec { sec: SEC_NS, owner: m.owner.clone(), rtype: chain::T_NSEC, class: 1, ttl: TTL_NEG, rdata: chain::nsec_rdata(&m2) });
+            for s in sigs {
+                out.push(Rec { sec: SEC_NS, owner: m.owner.clone(), rtype: ty::RRSIG, class: 1, ttl: TTL_NEG, rdata: s });
+            }
+        }
+        out
+    }
+
+    /// "ancestor delegation" name-error material: the parent's records that would prove, *in the
+    /// parent zone*, that `q` (a name below the delegation `cut`) does not exist.
+    pub fn ancestor_nxdomain(&self, parent: usize, cut: &Name, q: &Name) -> Vec<Rec> {
+        let z = &self.truth.zones[parent];
+        let mut out = self.parent_side_denial(parent, cut, false);
+        if let Some(p) = &z.spec.nsec3 {
+            let next_closer = suffix(q, (cut.len() + 1).min(q.len()));
+            for n in [next_closer, wildcard_of(cut)] {
+                if let Some(c) = self.nsec3_covering(parent, &n) {
+                    let owner = chain::nsec3_owner(c, &z.apex);
+                    if out.iter().any(|r| r.owner == owner && r.rtype == chain::T_NSEC3) {
+                        continue;
+                    }
+                    self.push_rrset(&mut out, SEC_NS, parent, &owner, chain::T_NSEC3, &[chain::nsec3_rdata(c, p)], None, true);
+                }
+            }
+        }
+        out
+    }
+
     // ---- the resolver emulation -----------------------------------------------------------------
 
     /// The honest answer of a perfect recursive resolver to (qname, qtype) with / without DO.
